@@ -736,6 +736,11 @@ class NNDescent:
             data = check_array(data, dtype=np.float32, accept_sparse="csr", order="C")
             self._input_dtype = np.float32
 
+        if isspmatrix_csr(data) and not data.has_sorted_indices:
+            # the sparse kernels (including the RP forest built below) merge
+            # rows assuming sorted indices; sort a copy, not the caller's matrix
+            data = data.sorted_indices()
+
         self._raw_data = data
 
         if not tree_init or n_trees == 0 or init_graph is not None:
